@@ -133,6 +133,34 @@ def run(ctx):
                   "this conversion factor is read as %s but the other one as %s: a factor written `10^6` is normalised for one "
                   "and silently falls back to 1.0 for the other" % (ch, chains[0]), desc="factor parsed by %s" % (ch,))
 
+    # ---------------- R11.5: prefixes are case-sensitive (m = milli, M = mega): their names are never case-folded
+    ctx.rule("R11.5", "the name of an SI prefix (unit modifier) is used exactly as declared, never case-folded")
+    n_iter = 0
+    for f in ue.all_methods:
+        targets = set()
+        for n in ast.walk(f.node):
+            it = None
+            if isinstance(n, ast.For):
+                it = (n.target, n.iter)
+            elif isinstance(n, ast.comprehension):
+                it = (n.target, n.iter)
+            if it and any(isinstance(x, ast.Attribute) and x.attr == "unit_modifiers" for x in ast.walk(it[1])):
+                targets |= {x.id for x in ast.walk(it[0]) if isinstance(x, ast.Name)}
+                n_iter += 1
+        if not targets:
+            continue
+        ctx.saw(f)
+        for c in ast.walk(f.node):
+            if isinstance(c, ast.Call) and isinstance(c.func, ast.Attribute) and c.func.attr in ("lower", "casefold", "upper", "title", "capitalize") \
+                    and any(isinstance(x, ast.Attribute) and x.attr == "name" and isinstance(x.value, ast.Name) and x.value.id in targets
+                            for x in ast.walk(c.func.value)):
+                ctx.violation("R11.5", f.qualname, c, loc(f, c),
+                              "a prefix name is case-folded (`%s`): prefixes that differ only in case (`m` milli / `M` mega, "
+                              "`p` pico / `P` peta) become the same key, so one of them gets the other's factor or is lost"
+                              % norm(c)[:50])
+        ctx.ok("R11.5", "%s: prefix names of %s used as declared" % (f.short, sorted(targets)), loc(f, f.node))
+    ctx.floor("R11.5", "iterations over a unit's prefixes", n_iter, 1)
+
     # ---------------- R11.2
     entries = [tag.methods.get("value_as_default_unit"), tag.methods.get("default_unit"), conv, val]
     if any(e is None for e in entries):
